@@ -211,7 +211,7 @@ def run(ctx, rng_name="main"):
 
 def judge(ctx, h, impl, model, spec):
     inp = {"revs": h}
-    ii = {k: v for k, v in impl.items() if k != "normOrder"}
+    ii = {k: v for k, v in impl.items() if k not in ("normOrder", "later")}
     mm = rev_impl.canon_model_load(model)
     if "ok" in ii and "ok" in mm:
         same = ii == mm
@@ -229,6 +229,11 @@ def judge(ctx, h, impl, model, spec):
     if len(ctx.samples) < 4 and cyc and len(h) >= 3:
         ctx.sample({"history": h, "impl": ii.get("err", "accepted"), "spec_hasCycle": cyc})
     err = ii.get("err")
+    if err is not None:
+        ctx.hist("refused_history_asked_again", "answers" if impl.get("later") else "refuses again")
+    if cyc and err in CYCLE_ERRS and impl.get("later"):
+        ctx.fail(inp, "cycle-accepted-later: the history is refused with %s, and the same object asked again answers: %s" % (
+            err, "; ".join("%s -> %s" % (n, v) for n, v in impl["later"][:4])), impl=impl, tags=["accepted", "later"])
     if cyc and err not in CYCLE_ERRS:
         if err is None:
             ctx.fail(inp, "cycle-accepted: history with a directed cycle loads without a cycle error", impl=ii, tags=["accepted"])
